@@ -267,8 +267,28 @@ def model_run(exe, num, cases, workdir, tag):
 
 # ---------------------------------------------------------------- harness
 
+def harness_dir():
+    """The harness crate depends on /repo by path.  When VERIF_REPO points somewhere
+    else (a scratch worktree carrying a seeded change) a shadow copy of the crate
+    manifest with that path is used; sources are shared."""
+    if os.path.realpath(REPO) == "/repo":
+        return HARNESS, ""
+    tagname = hashlib.sha1(os.path.realpath(REPO).encode()).hexdigest()[:8]
+    d = os.path.join(BUILD, "harness-shadow-" + tagname)
+    os.makedirs(d, exist_ok=True)
+    toml = open(os.path.join(HARNESS, "Cargo.toml")).read().replace('path = "/repo"', 'path = "%s"' % os.path.realpath(REPO))
+    if not os.path.exists(os.path.join(d, "Cargo.toml")) or open(os.path.join(d, "Cargo.toml")).read() != toml:
+        open(os.path.join(d, "Cargo.toml"), "w").write(toml)
+    lock = open(os.path.join(HARNESS, "Cargo.lock")).read()
+    open(os.path.join(d, "Cargo.lock"), "w").write(lock)
+    if not os.path.islink(os.path.join(d, "src")):
+        os.symlink(os.path.join(HARNESS, "src"), os.path.join(d, "src"))
+    return d, "-" + tagname
+
+
 def harness_build(bin_name, features, profile, timeout=1800):
-    target = os.path.join(BUILD, "harness-target" + ("-" + "-".join(features) if features else ""))
+    hdir, suffix = harness_dir()
+    target = os.path.join(BUILD, "harness-target" + suffix + ("-" + "-".join(features) if features else ""))
     cmd = ["cargo", "build", "--offline", "--bin", bin_name]
     if profile == "release":
         cmd.append("--release")
@@ -277,7 +297,7 @@ def harness_build(bin_name, features, profile, timeout=1800):
     env = {"CARGO_TARGET_DIR": target, "RUSTFLAGS": os.environ.get("VERIF_RUSTFLAGS", "")}
     if not env["RUSTFLAGS"]:
         del env["RUSTFLAGS"]
-    rc, out, err = sh(cmd, timeout, cwd=HARNESS, env=env)
+    rc, out, err = sh(cmd, timeout, cwd=hdir, env=env)
     exe = os.path.join(target, "release" if profile == "release" else "debug", bin_name)
     if rc != 0:
         errs = [l for l in err.split("\n") if l.startswith("error")]
@@ -367,7 +387,10 @@ def main(argv):
     nonfailing_mismatch = []
 
     # 1. regenerate the model parts that come from the source
+    import gen
     with Lock():
+        gen.gen_corr()
+        gen.gen_project()
         rg = regen()
     ev["regen"] = rg
     for g in rg.get("errors", []):
